@@ -7,7 +7,8 @@
   records of alternating templates (A, B, A) carry another template's source.
 
 * `moduleDirectoryPathAbsolute` / `moduleFilenamePathAbsolute` - in `Template.__init__` (mako/template.py) the module
-  path of the `module_directory` branch / of the `module_filename` branch is `os.path.abspath(...)` of something.
+  path of the `module_directory` branch / of the `module_filename` branch is `os.path.abspath(<expr>)` (that callee
+  exactly) with `<expr>` mentioning `module_directory` / `module_filename`.
   CPython reports an imported module file (traceback frames, compile warnings) under its absolute path, while
   `ModuleInfo._modules` and `_translate_module_warnings` are keyed by the path `Template.__init__` computed.
 
@@ -50,9 +51,15 @@ def gen(repo):
     rel2 = "mako/template.py"
     tinit = find_func(find_class(parse(repo, rel2), "Template", rel2).body, "__init__", rel2)
 
-    def is_abspath(v):
-        return (isinstance(v, ast.Call) and isinstance(v.func, ast.Attribute) and v.func.attr == "abspath"
-                and len(v.args) == 1)
+    def is_abspath(v, must_mention):
+        """`os.path.abspath(<expr>)` - exactly that callee, one positional argument, no keywords - whose argument
+        is the module path expression of the branch: it mentions the name `must_mention`"""
+        f = v.func if isinstance(v, ast.Call) else None
+        if not (isinstance(f, ast.Attribute) and f.attr == "abspath" and isinstance(f.value, ast.Attribute)
+                and f.value.attr == "path" and isinstance(f.value.value, ast.Name) and f.value.value.id == "os"
+                and len(v.args) == 1 and not v.keywords):
+            return False
+        return any(isinstance(n, ast.Name) and n.id == must_mention for n in ast.walk(v.args[0]))
 
     def test_name(t):
         # `<name> is not None`
@@ -70,12 +77,12 @@ def gen(repo):
         if isinstance(node, ast.If) and test_name(node.test) == "module_filename":
             v = path_value(node.body)
             if v is not None and file_abs is None:
-                file_abs = is_abspath(v)
+                file_abs = is_abspath(v, "module_filename")
             if len(node.orelse) == 1 and isinstance(node.orelse[0], ast.If) \
                     and test_name(node.orelse[0].test) == "module_directory":
                 v2 = path_value(node.orelse[0].body)
                 if v2 is not None and dir_abs is None:
-                    dir_abs = is_abspath(v2)
+                    dir_abs = is_abspath(v2, "module_directory")
     return (HEADER % "mako/exceptions.py (RichTraceback._init), mako/template.py (Template.__init__)"
             + "namespace MakoModel.Generated.TbCfg\n\n"
             + "/-- the per-file cache `mods` of `_init` stores and restores `template_source`\n"
